@@ -172,7 +172,9 @@ def monitor_cases(rng, tier, stats):
                 if guess == "orth":
                     ca = [c_.clone() for c_ in A.cores]; ca[-1][:, 0, :, :] = 0; A = torchtt.TT(ca)          # the product lives on rows >= 1 of the last mode
                     cg = [c_.clone() for c_ in g.cores]; cg[-1][:, 1:, :] = 0; g = torchtt.TT(cg)            # the guess on row 0 only
-                y = A.fast_matvec(x, eps=eps, initial=g, nswp=nswp, use_cpp=False)
+                import contextlib, io
+                with contextlib.redirect_stdout(io.StringIO()):
+                    y = A.fast_matvec(x, eps=eps, initial=g, nswp=nswp, use_cpp=False, verb=(seed % 5 == 0))
                 exact = dense_of(A).reshape(int(np.prod(M)), -1) @ dense_of(x).reshape(-1)
                 got = dense_of(y).reshape(-1) if isinstance(y, torchtt.TT) and list(y.N) == M and not y.is_ttm else None
             elif routine == "dmrg_hadamard":
@@ -192,7 +194,9 @@ def monitor_cases(rng, tier, stats):
                 got = dense_of(y).reshape(-1) if isinstance(y, torchtt.TT) and list(y.N) == N and not y.is_ttm else None
             elif routine == "amen_mv":
                 g = torchtt.TT(rnd_cores(rng, [[gr[k], M[k], gr[k + 1]] for k in range(d)], dt, False)) if guess else None
-                y = torchtt.amen_mv(A, x, eps=eps, x0=g, nswp=30, use_cpp=False)
+                import contextlib, io
+                with contextlib.redirect_stdout(io.StringIO()):
+                    y = torchtt.amen_mv(A, x, eps=eps, x0=g, nswp=30, use_cpp=False, verbose=(seed % 5 == 0))
                 exact = dense_of(A).reshape(int(np.prod(M)), -1) @ dense_of(x).reshape(-1)
                 got = dense_of(y).reshape(-1) if isinstance(y, torchtt.TT) and list(y.N) == M and not y.is_ttm else None
             else:
